@@ -112,7 +112,9 @@ def _reject_worker(d, task, extra):
         if r.mem:
             mc = c14.msg_class(detail)
             lst = out["classes"].setdefault(mc, [])
-            if len(lst) < 3:
+            # plain syntax errors must never leak: keep every candidate; errors raised by exceptions are one recorded
+            # finding (keyed on the call site), three representatives per worker are enough there
+            if len(lst) < (200 if mc == "syntax error" else 3):
                 lst.append((t.hex(), r.mem))
     return out
 
@@ -304,14 +306,16 @@ def main(ctx):
     ctx.count("message_classes_with_nonzero_delta", len(classes))
     for mc, lst in sorted(classes.items()):
         # confirm up to three representatives of each message class in fresh processes
-        for hx_, delta in lst[:3]:
+        for hx_, delta in (lst[:400] if mc in ("syntax error", "(accepted)") else lst[:3]):
             t = bytes.fromhex(hx_)
             leaked, rep = lsan_confirm(b, "core", ["parselen q=%s" % drv.hx(t)])
             if not leaked:
                 ctx.count("reject_candidates_not_confirmed_by_lsan")
                 continue
             through_parser = "yyparse" in rep
-            by_exception = mc != "syntax error" and mc != "(accepted)"
+            # a syntax error inside a `%( %)` splice is found by the nested parse that the LEXER runs, and reaches the
+            # outer parser as an exception thrown from yylex - the same call site as the other exception classes
+            by_exception = (mc != "syntax error" and mc != "(accepted)") or (mc == "syntax error" and b"%(" in t)
             if through_parser and by_exception:
                 # recorded finding: exceptions thrown by the lexer or by grammar actions unwind through the
                 # generated C parser, which cannot release its value stack; keyed on that call site
